@@ -202,4 +202,13 @@ theorem layer_reachable_ok (ops : List Op) : MemFs.InRange (MemFs.run MemFs.init
     `cowWriteMask` there) is the one written in cacheOnReadFs.go -/
 theorem cacheWriteMask_is_source : cowWriteMask = Generated.cacheWriteMask := by decide
 
+/-- per exported method of `CacheOnReadFs`: number of calls of `cacheStatus`, `copyToLayer` and
+    `copyFileToLayer`, as extracted from the current cacheOnReadFs.go — the routing the model follows:
+    every method but Create/Mkdir/MkdirAll classifies first; Open copies (miss and stale branches),
+    OpenFile copies with the caller's flags, the metadata methods and Rename copy before acting -/
+theorem cache_methods_are_source : Generated.cacheCalls =
+    [("Chmod", [1, 1, 0]), ("Chown", [1, 1, 0]), ("Chtimes", [1, 1, 0]), ("Create", [0, 0, 0]), ("Mkdir", [0, 0, 0]),
+     ("MkdirAll", [0, 0, 0]), ("Name", [0, 0, 0]), ("Open", [1, 2, 0]), ("OpenFile", [1, 0, 1]), ("Remove", [1, 0, 0]),
+     ("RemoveAll", [1, 0, 0]), ("Rename", [1, 1, 0]), ("Stat", [1, 0, 0])] := by decide
+
 end AferoVerif.C10
